@@ -308,8 +308,12 @@ def run_schedule(c, schedule):
     saved = S.install_fakes()
     try:
         dbfile = os.path.join(td, "s.db")
-        _prefill(dbfile, c)
-        s = Scheduler(dbfile, c["programs"], apply_op, max_ids=c.get("max_ids", 1024), seed=c.get("seed", 0))
+        if not c.get("fresh"):
+            _prefill(dbfile, c)
+        # "fresh": the simulated processes open a file that does not exist yet, and the statements of their
+        # IDManager.__init__ (PRAGMAs, schema DDL) are switch points too
+        s = Scheduler(dbfile, c["programs"], apply_op, max_ids=c.get("max_ids", 1024), seed=c.get("seed", 0),
+                      trace_open=bool(c.get("fresh")))
         results = s.run(schedule)
         info = {"internal_cleanup": any(sql.lstrip().upper().startswith("DELETE") and p.ops[oi][0] == "get"
                                         for p in s.procs for (oi, sql) in p.statements if 0 <= oi < len(p.ops))}
@@ -329,7 +333,7 @@ def sequential_outcomes(c):
     """Outcomes (results per process, final tables) of EVERY one-at-a-time ordering of the same
     requests (program order kept per process), obtained by running the real code sequentially
     with the same per-operation clock values and random tapes."""
-    key = json.dumps([c["programs"], c.get("prefill"), c.get("preupload"), c.get("max_ids"), c.get("seed", 0)])
+    key = json.dumps([c["programs"], c.get("prefill"), c.get("preupload"), c.get("max_ids"), c.get("seed", 0), c.get("fresh")])
     if key in _SEQ_CACHE:
         return _SEQ_CACHE[key]
     progs = c["programs"]
@@ -357,7 +361,8 @@ def sequential_outcomes(c):
             td = tempfile.mkdtemp(prefix="vc03q")
             try:
                 dbfile = os.path.join(td, "s.db")
-                _prefill(dbfile, c)
+                if not c.get("fresh"):
+                    _prefill(dbfile, c)
                 ms = [im.IDManager(dbfile, max_ids_per_subspace=c.get("max_ids", 1024)) for _ in range(n)]
                 pos = [0] * n
                 res = [[] for _ in range(n)]
@@ -391,7 +396,7 @@ def block_structure_reference(ctx: Ctx, c, force=False):
     """K "block structure" on sequential reference runs: every operation of the scenario, run one at a time on the
     real code in two program-order-preserving orders (process 0 first / last process first), is compared block by
     block with the model's lone run on the database of that moment.  Once per scenario."""
-    key = json.dumps([c["programs"], c.get("prefill"), c.get("preupload"), c.get("max_ids"), c.get("seed", 0)])
+    key = json.dumps([c["programs"], c.get("prefill"), c.get("preupload"), c.get("max_ids"), c.get("seed", 0), c.get("fresh")])
     if key in _BLK_DONE and not force:
         return
     _BLK_DONE.add(key)
@@ -407,7 +412,8 @@ def block_structure_reference(ctx: Ctx, c, force=False):
             td = tempfile.mkdtemp(prefix="vc03b")
             try:
                 dbfile = os.path.join(td, "s.db")
-                _prefill(dbfile, c)
+                if not c.get("fresh"):
+                    _prefill(dbfile, c)
                 ms = [im.IDManager(dbfile, max_ids_per_subspace=c.get("max_ids", 1024)) for _ in range(n)]
                 pos = [0] * n
                 for pi in order:
@@ -665,6 +671,14 @@ def cases(ctx: Ctx):
             progs.append(prog)
         sched = [rng.randrange(nproc) for _ in range(60)]
         yield dict(k="schedule", programs=progs, schedule=sched, max_ids=rng.choice([1024, 2, 1024]))
+    # first open of a fresh file interleaved statement by statement (PRAGMAs and schema DDL are switch points)
+    fresh_progs = [[["get", "X", "8bit", 5, 8], ["mark", 5, "T", 3]], [["get", "Y", "8bit", 5, 8], ["needs", 5, "T"]]]
+    for k in (1, 2, 3, 5, 8, 13, 20):
+        yield dict(k="schedule", fresh=True, programs=fresh_progs, schedule=[0] * k + [1] * 200)
+        yield dict(k="schedule", fresh=True, programs=fresh_progs, schedule=[1] * k + [0] * 200)
+    for _ in range(8 if ctx.quick else 60):
+        yield dict(k="schedule", fresh=True, programs=fresh_progs + ([[["get", "Z", "32bit", 0, 256]]] if rng.random() < 0.5 else []),
+                   schedule=[rng.randrange(3) for _ in range(120)])
     # first-open race: several real processes open a fresh file together (non-deterministic; a failure is real)
     for _ in range(3 if ctx.quick else 10):
         yield dict(k="stress", procs=12, space="24bit", b=3, e=4, n=2)
